@@ -278,6 +278,21 @@ protected:
     {
       core::BufferView view(localBuffer.data() + offset,
                             localBuffer.size() - offset);
+      // A header that can never complete (control frame violating RFC 6455 §5.5)
+      // or that declares more than maxFrameSize must not be waited for: parse()
+      // would report "incomplete" forever and the buffer would grow without bound.
+      const auto hs = WebSocketFrame::checkHeader(view, _maxFrameSize);
+      if (hs == WebSocketFrame::HeaderStatus::ProtocolError)
+      {
+        failConnection(sid, 1002, "Protocol error", "Received malformed control frame");
+        return; // the rest of the stream cannot be framed
+      }
+      if (hs == WebSocketFrame::HeaderStatus::TooBig)
+      {
+        failConnection(sid, 1009, "Message Too Big", "Frame exceeded maxFrameSize");
+        return;
+      }
+
       std::size_t consumed = 0;
       auto frame = WebSocketFrame::parse(view, consumed);
 
@@ -308,6 +323,45 @@ protected:
   }
 
 private:
+  /// \brief Fail the WebSocket connection (RFC 6455 §7.1.7): send a Close frame
+  /// (unless one was sent already), report, forget the session and close the
+  /// transport session. Same _wsMutex -> _mutex order as the inbound-CLOSE echo.
+  void failConnection(SessionId sid, std::uint16_t code, const std::string& reason,
+                      const std::string& error)
+  {
+    {
+      std::lock_guard<std::mutex> lock(_wsMutex);
+      auto it = _sessions.find(sid);
+      if (it == _sessions.end())
+      {
+        return;
+      }
+      if (!it->second.closeSent)
+      {
+        it->second.closeSent = true;
+        auto closeFrame = WebSocketFrame::makeClose(code, reason);
+        auto wire = closeFrame.serialize(false);
+        sendRaw(sid, wire.data(), wire.size());
+      }
+    }
+
+    if (_onError)
+    {
+      _onError(sid, error);
+    }
+    if (_onClose)
+    {
+      _onClose(sid, code, reason);
+    }
+
+    {
+      std::lock_guard<std::mutex> lock(_wsMutex);
+      _sessions.erase(sid);
+    }
+
+    closeSession(sid);
+  }
+
   void handleFrame(SessionId sid, const WebSocketFrame& frame)
   {
     switch (frame.opcode)
